@@ -14,7 +14,7 @@ import tlaval
 BLOCK = 16384
 
 # which properties a rejected trace event concerns (the spec action that failed to explain it)
-MGR_LABEL = {'Unchoke': ['C12', 'C13'], 'Choke': ['C12'], 'Have': ['C12'], 'PieceDone': ['C12', 'C13', 'C01'], 'PieceCancel': ['C12', 'C13'],
+MGR_LABEL = {'Unchoke': ['C12', 'C13', 'C10'], 'Choke': ['C12'], 'Have': ['C12', 'C10'], 'PieceDone': ['C12', 'C13', 'C01', 'C10'], 'PieceCancel': ['C12', 'C13', 'C10'],
              'Kill': ['C12', 'C20', 'C08'], 'Bitfield': ['C14', 'C13'], 'Request': ['C09'], 'Init': ['C11', 'C08'], 'Interested': ['C14'],
              'NotInterested': ['C14', 'C13'], 'SyncStats': ['C14']}
 TRIG_LABEL = {'Piece': ['C01', 'C10'], 'Request': ['C09'], 'Handshake': ['C08'], 'BroadHave': ['C11'], 'Unchoke': ['C11', 'C12', 'C10'],
@@ -50,10 +50,11 @@ def oracles(scn, raw):
     s = scn
     names = {p['addr']: i for i, p in enumerate(raw[0]['peers'])}
     info_hash, own_id = raw[0]['info_hash'], raw[0]['own_id']
-    wire = {a: [] for a in names}        # (seq, vt, frame) written by the client, as decoded by the harness
-    hooked = {a: [] for a in names}      # frames the hooks say were written
-    sends = {a: [] for a in names}       # (seq, vt, frame) sent by the scripted peer
-    trigs = {a: [] for a in names}
+    import collections
+    wire = collections.defaultdict(list)     # (seq, vt, frame) written by the client, as decoded by the harness
+    hooked = collections.defaultdict(list)   # frames the hooks say were written
+    sends = collections.defaultdict(list)    # (seq, vt, frame) sent by the scripted peer
+    trigs = collections.defaultdict(list)
     exits = {}
     closed = {}
     disks = []                           # (seq, good set, bad count, files)
@@ -79,6 +80,8 @@ def oracles(scn, raw):
             disks.append((e['seq'], {p['idx'] for p in e['pieces'] if p['good']}, len([p for p in e['pieces'] if not p['good']]), e['files']))
         elif src == 'drv' and ev == 'Panic':
             panics.append(e['msg'])
+        elif src == 'drv' and ev == 'Hang':
+            panics.append('the run did not come to an end within the real-time watchdog (a task keeps spinning)')
         elif src == 'mgr' and ev == 'Accept':
             incoming.add(e['peer'])
         elif src == 'mgr' and ev == 'Spawn':
@@ -477,7 +480,7 @@ def mult(tier):
 def check_c01(tier, replay=None):
     m = mult(tier)
     plan = [(G.adversarial, 40 * m, {'kinds': ['Unchoke', 'Unchoke', 'Choke', 'Piece', 'Piece', 'PieceBad', 'PieceOdd', 'Have', 'Bitfield', 'serve', 'advance', 'close']}),
-            (G.honest, 8 * m, {}), (G.upload, 8 * m, {}), ('model', 20 * m, {})]
+            (G.honest, 8 * m, {}), (G.upload, 8 * m, {}), (G.midflight, 10 * m, {}), (G.diskfault, 10 * m, {}), ('model', 20 * m, {})]
     return swarm_check('C01', tier, plan, ['Unchoke', 'Bitfield', 'Piece', 'Bad'],
                        design_over=dict(Fuel=3, BFMenu='{{1, 2}}') if tier == 'quick' else dict(Fuel=4, MaxQ=2),
                        vacuity={'completions': 10, 'bad_piece_exits': 1}, replay=replay,
@@ -486,7 +489,7 @@ def check_c01(tier, replay=None):
 
 def check_c02(tier, replay=None):
     m = mult(tier)
-    plan = [(G.honest, 40 * m, {})]
+    plan = [(G.honest, 32 * m, {}), (G.handover, 10 * m, {})]
     return swarm_check('C02', tier, plan, ['Unchoke', 'Bitfield', 'Piece', 'Have'],
                        design_over=dict(Fuel=3, BFMenu='{{1, 2}}') if tier == 'quick' else dict(Fuel=4, MaxQ=2),
                        extra_oracles=[oracle_c02], vacuity={'completions': 40}, replay=replay,
@@ -506,7 +509,7 @@ def check_c08(tier, replay=None):
 
 def check_c09(tier, replay=None):
     m = mult(tier)
-    plan = [(G.upload, 40 * m, {}), ('model', 12 * m, {})]
+    plan = [(G.upload, 36 * m, {}), (G.optimistic, 6 * m, {}), ('model', 12 * m, {})]
     return swarm_check('C09', tier, plan, ['Unchoke', 'Bitfield', 'Piece', 'Request'],
                        design_over=dict(NPieces=1, NBlocks='N1', Fuel=3, BFMenu='{{1}}') if tier == 'quick' else dict(NPieces=1, NBlocks='N1', Fuel=5, BFMenu='{{1}}', MaxQ=2),
                        vacuity={'pieces_served': 15}, replay=replay,
@@ -516,7 +519,7 @@ def check_c09(tier, replay=None):
 
 def check_c10(tier, replay=None):
     m = mult(tier)
-    plan = [(G.honest, 20 * m, {}), (G.adversarial, 25 * m, {}), ('model', 20 * m, {})]
+    plan = [(G.honest, 20 * m, {}), (G.adversarial, 20 * m, {}), (G.reassign, 25 * m, {}), ('model', 20 * m, {})]
     return swarm_check('C10', tier, plan, ['Unchoke', 'Choke', 'Bitfield', 'Piece'],
                        design_over=dict(NBlocks='N3b', Fuel=6, Peers='{a}', BFMenu='{{1, 2}}') if tier == 'quick' else dict(NBlocks='N3b', Fuel=5, BFMenu='{{1, 2}}'),
                        vacuity={'requests_written': 100, 'completions': 20}, replay=replay,
@@ -525,7 +528,7 @@ def check_c10(tier, replay=None):
 
 def check_c11(tier, replay=None):
     m = mult(tier)
-    plan = [(G.honest, 25 * m, {'npeers': 3}), (G.upload, 15 * m, {})]
+    plan = [(G.honest, 20 * m, {'npeers': 3}), (G.upload, 12 * m, {}), (G.midflight, 20 * m, {})]
     return swarm_check('C11', tier, plan, ['Handshake', 'Unchoke', 'Bitfield', 'Piece'],
                        design_over=dict(HS0='FALSE', Fuel=4, NBlocks='N1x2', BFMenu='{{1, 2}}') if tier == 'quick' else dict(HS0='FALSE', Fuel=5, NBlocks='N1x2', MaxQ=2),
                        vacuity={'bitfields_written': 20, 'haves_written': 20}, replay=replay,
@@ -535,7 +538,7 @@ def check_c11(tier, replay=None):
 
 def check_c12(tier, replay=None):
     m = mult(tier)
-    plan = [(G.adversarial, 60 * m, {}), (G.honest, 6 * m, {}), ('model', 30 * m, {})]
+    plan = [(G.adversarial, 50 * m, {}), (G.honest, 6 * m, {}), (G.reassign, 30 * m, {}), (G.stale_choke, 10 * m, {}), (G.choke_race, 30 * m, {}), ('model', 30 * m, {})]
     return swarm_check('C12', tier, plan, ['Unchoke', 'Choke', 'Bitfield', 'Piece'] if tier == 'quick' else ['Unchoke', 'Choke', 'Bitfield', 'Piece', 'Have', 'Bad'],
                        design_over=dict(Fuel=3, BFMenu='{{1, 2}}') if tier == 'quick' else dict(Fuel=4, MaxQ=2),
                        vacuity={'mgr_events': 500, 'completions': 5}, replay=replay,
@@ -545,7 +548,7 @@ def check_c12(tier, replay=None):
 
 def check_c13(tier, replay=None):
     m = mult(tier)
-    plan = [(G.adversarial, 30 * m, {}), (G.honest, 12 * m, {'gname': 'g12'}), (G.honest, 8 * m, {}), ('model', 12 * m, {})]
+    plan = [(G.adversarial, 25 * m, {}), (G.honest, 12 * m, {'gname': 'g12'}), (G.honest, 8 * m, {}), (G.reassign, 15 * m, {}), (G.endgame10, 14 * m, {}), ('model', 12 * m, {})]
     return swarm_check('C13', tier, plan, ['Unchoke', 'Bitfield', 'Have'],
                        design_over=dict(Fuel=2, NPieces=3, NBlocks='N1x3', BFMenu='{{1, 2}, {3}}') if tier == 'quick' else dict(Fuel=3, NPieces=3, NBlocks='N1x3', BFMenu='{{1, 2}, {3}, {1, 2, 3}}'),
                        vacuity={'mgr_events': 500}, replay=replay,
@@ -555,7 +558,7 @@ def check_c13(tier, replay=None):
 
 def check_c14(tier, replay=None):
     m = mult(tier)
-    plan = [(G.choking, 20 * m, {}), (G.rotation_race, 20 * m, {})]
+    plan = [(G.choking, 20 * m, {}), (G.rotation_race, 20 * m, {}), (G.optimistic, 5 * m, {})]
     return swarm_check('C14', tier, plan, ['Bitfield', 'Interested'] if tier == 'quick' else ['Bitfield', 'Interested', 'NotInterested'],
                        design_over=dict(Peers='{a, b}', NPieces=1, NBlocks='N1', TickFuel=1, Fuel=2, MaxUnchoked=1, BFMenu='{{1}}', OptRounds=1) if tier == 'quick'
                        else dict(Peers='{a, b, c}', NPieces=1, NBlocks='N1', TickFuel=1, Fuel=2, MaxUnchoked=1, BFMenu='{{1}}'),
@@ -600,6 +603,9 @@ def oracle_c19(scn, raw, info):
     end = raw[-1]
     if end.get('ev') == 'End' and not end.get('session_alive'):
         out.append(('C19', 'the session task ended'))
+    # a failed announce (HTTP error, failure reason) yields no peers: the address that only such replies list stays untouched
+    if end.get('ev') == 'End' and any(a.startswith('10.9.9.9') for a in end.get('connects', [])):
+        out.append(('C19', 'the client contacted 10.9.9.9:7777, which is listed only in a failed announce (HTTP error / failure reason)'))
     return out
 
 
@@ -660,6 +666,8 @@ def check_c19(tier, replay=None):
     # (3) the real session with the scripted tracker transport
     fails = [0, 1, 2, 5, 63, 64, 65, 66] if tier == 'quick' else [0, 1, 2, 3, 5, 10, 30, 62, 63, 64, 65, 66, 67, 70, 120, 200]
     scs = [G.tracker(rng, nf) for nf in fails]
+    # every kind of failed announce at least once, in particular an HTTP error / failure reason whose body lists somebody else
+    scs += [G.tracker(rng, 3, must=[7]), G.tracker(rng, 4, must=[8, 0]), G.tracker(rng, 6, must=[1, 2, 3, 4, 5, 6])]
     S = [sw.Scenario(s) for s in scs]
     raw = sw.run_scenarios(pid, S)
     enc = [sw.Encoder(s, r).encode() for s, r in zip(S, raw)]
